@@ -158,6 +158,58 @@ def measure_cleanup():
     return idempotent, survives
 
 
+def measure_dispatch_closes_on_eof():
+    """When a request made from INSIDE the delivery of a response meets the end of the transport (EOFError), does
+    `_dispatch` close the connection before re-raising?  Measured: a result callback that issues a request on a stream
+    whose write raises EOFError; a MSG_REPLY for its waiter is dispatched."""
+    from rpyc.core import brine, consts
+    from rpyc.core.channel import Channel
+    from rpyc.core.service import VoidService
+    from rpyc.core.stream import Stream
+
+    class Dead(Stream):
+        MAX_IO_CHUNK = 64000
+        is_closed = False
+
+        @property
+        def closed(self):
+            return self.is_closed
+
+        def close(self):
+            self.is_closed = True
+
+        def fileno(self):
+            raise EOFError()
+
+        def poll(self, timeout):
+            raise EOFError()
+
+        def read(self, count):
+            raise EOFError()
+
+        def write(self, data):
+            self.is_closed = True
+            raise EOFError("peer gone")
+    try:
+        conn = VoidService()._connect(Channel(Dead(), False), {})
+        conn._request_callbacks[7] = lambda is_exc, obj: conn.async_request(consts.HANDLE_PING, 1)
+        data = brine.dump((consts.MSG_REPLY, 7, (consts.LABEL_VALUE, 5)))
+    except Exception as ex:  # noqa
+        raise Inexpressible("cannot set up the EOF-in-response-delivery probe: %r" % (ex,))
+    try:
+        conn._dispatch(data)
+        raise Inexpressible("_dispatch swallowed the EOFError of a request made while delivering a response")
+    except EOFError:
+        pass
+    except Inexpressible:
+        raise
+    except Exception as ex:  # noqa
+        raise Inexpressible("EOF-in-response-delivery probe raised %r" % (ex,))
+    closed = bool(conn.closed)
+    conn._closed = True
+    return closed
+
+
 def gen_proto():
     from rpyc.core import consts
     from rpyc.core.protocol import Connection
@@ -198,6 +250,9 @@ def gen_proto():
     L += ["", "/-- measured on the live `Connection._dispatch`: a response whose payload cannot be decoded is delivered to its",
           "waiter as an exception outcome (true) instead of leaving `_dispatch` undelivered (false) -/",
           "def responseDecodeGuarded : Bool := %s" % ("true" if measure_response_decode_guarded() else "false")]
+    L += ["", "/-- measured on the live `Connection._dispatch`: a request made from inside the delivery of a RESPONSE that meets",
+          "the end of the transport closes the connection before EOFError is re-raised (true) / leaves it open (false) -/",
+          "def dispatchClosesOnEof : Bool := %s" % ("true" if measure_dispatch_closes_on_eof() else "false")]
     idem, surv = measure_cleanup()
     L += ["", "/-- measured on the live `Connection._cleanup`: a second run returns quietly (true) / raises AttributeError (false) -/",
           "def cleanupIdempotent : Bool := %s" % ("true" if idem else "false"),
